@@ -227,6 +227,10 @@ func (r *Response) Encode(writer io.Writer) error {
 	if r.Message != "" {
 		parts[0] += " " + r.Message
 	}
+	if len(parts[0]) > MaxRequestLength {
+		// clients refuse (Response.Decode) or ignore (pam_whawty) anything beyond this limit
+		parts[0] = parts[0][:MaxRequestLength]
+	}
 	return encodeLengthEncodedStrings(writer, parts)
 }
 
@@ -240,6 +244,7 @@ func (r *Response) Marshal() (data []byte, err error) {
 	data = make([]byte, blen)
 	buf := bytes.NewBuffer(data[:0])
 	err = r.Encode(buf)
+	data = buf.Bytes()
 	return
 }
 
